@@ -6,5 +6,5 @@ cd $REPO || exit 2
 if ! git diff --quiet; then echo "repo dirty"; exit 2; fi
 git apply "$patch" || { echo "patch does not apply"; exit 2; }
 trap "git -C $REPO checkout -- . ; git -C $REPO clean -fdq" EXIT
-cd /verif && ./check run "$prop" --budget "$budget"
+cd /verif && VERIF_NO_EVIDENCE=1 ./check run "$prop" --budget "$budget"
 echo "EXIT=$?"
